@@ -438,7 +438,7 @@ def rule_e(ck, R):
                 bad = 'write reached without the serialiser having succeeded'
             # arguments: (a, raw, e->offset, rds_size[e->type])
             wa = w.args
-            if 'offset' not in fmt(wa[2]) or 'rds_size' not in fmt(wa[3]) or 'type' not in fmt(wa[3]):
+            if 'offset' not in fmt(wa[2]) or 'rds_size' not in fmt(eng.expand(wa[3])) or 'type' not in fmt(eng.expand(wa[3])):
                 bad = 'write called with (offset=%s, n=%s), expected (e->offset, rds_size[e->type])' % (fmt(wa[2]), fmt(wa[3]))
             if s.args[1] != wa[1]:
                 bad = 'the atoms written (%s) are not the ones serialised (%s)' % (fmt(wa[1]), fmt(s.args[1]))
